@@ -29,6 +29,7 @@ OPERATORS = ["same_key", "reversed_pair", "ws_pair", "ws_reversed_pair", "ws_fs_
              "table_named_like_builtin", "same_key_embed_density", "adp_same_key", "adp_reversed_pair", "adp_ws_reversed_pair",
              "formula_label_other_case", "table_label_other_case"]
 REQUIRED = dict(("op:" + o, 6) for o in OPERATORS)
+REQUIRED["clashing_formula_is_not_the_first_entry"] = 2
 OTHER_VALUE = "as.constant 7.25"
 
 
@@ -45,6 +46,13 @@ def _case(draw, op):
     m = draw(gen.any_model(targets, 2, 3, depth=1, tables=False))
     if op in ("ws_formula_signature", "formula_other_params", "table_named_like_formula", "formula_label_other_case") and not m["env"]["custom"]:
         m["env"]["custom"] = draw(gen.custom_forms(2, 1, min_forms=1))
+    if op in ("table_named_like_formula", "formula_other_params", "formula_label_other_case") and draw(st.integers(0, 2)) > 0:
+        # several formulas, so that the clashing one is not always the first entry of its section
+        have = set(c["name"] for c in m["env"]["custom"])
+        extra = [c for c in draw(gen.custom_forms(2, 1, min_forms=1)) if c["name"] not in have]
+        names = set(c["name"] for c in extra)
+        if not any(gen._expr_has_custom(c["expr"]) for c in extra):
+            m["env"]["custom"] = (extra + m["env"]["custom"]) if draw(st.booleans()) else (m["env"]["custom"] + extra)
     if op.startswith("table_") and not m["env"]["table"]:
         m["env"]["table"] = [draw(gen.table_form("tab1", 6))]
     return {"model": m, "op": op, "site": draw(st.integers(0, 50)), "before": draw(st.booleans()),
@@ -218,6 +226,12 @@ def check_case(case):
     if d is None:
         return {"v": [], "cls": [], "nt": False, "skip": True}
     secs, what = d
+    if case["op"] == "table_named_like_formula":
+        tnames = [s_[0].split(":", 1)[1].strip() for s_ in secs if s_[0].startswith("Table-Form:")]
+        pf = _sec(secs, "Potential-Form")
+        keys = [k.split("(", 1)[0].strip() for k, _ in pf[1]] if pf else []
+        if any(k in tnames for k in keys[1:]):
+            cls.append("clashing_formula_is_not_the_first_entry")
     text = anymodel.text_of(secs)
     got = anymodel.outcome(text, target)
     v = []
